@@ -17,8 +17,8 @@ from .C09 import expect_same, first_diff
 
 
 class SolveAnalysis:
-    def __init__(self, repo, validation=True, aux=True, tracked=True, opt_state_given=False, verbose=True):
-        self.E = E = SolveEnv(repo)
+    def __init__(self, repo, validation=True, aux=True, tracked=True, opt_state_given=False, verbose=True, overrides=None):
+        self.E = E = SolveEnv(repo, overrides=overrides)
         self.validation, self.aux = validation, aux
         self.loss = LossToken()
         self.opt = OptToken()
